@@ -21,16 +21,21 @@ use std::collections::BTreeMap;
 use std::fmt;
 use std::ops::{Deref, DerefMut};
 use std::sync::atomic::{AtomicBool, AtomicU64, AtomicUsize, Ordering};
-use std::sync::{LockResult, Mutex, PoisonError, TryLockError};
+use std::sync::Mutex as StdMutex;
+
+// Everything of std::sync that is not modelled is std's own item: the simulator's build rewrites
+// `std::sync::` into `dmntk_verif_sync::` throughout the dmntk crates.
+pub use std::sync::{atomic, mpsc};
+pub use std::sync::{Arc, Barrier, BarrierWaitResult, Condvar, LazyLock, LockResult, Once, OnceLock, OnceState, PoisonError, TryLockError, TryLockResult, WaitTimeoutResult, Weak};
 
 /// `true` while a shuttle execution is running on this process.
 static SIM_ACTIVE: AtomicBool = AtomicBool::new(false);
 /// Source of lock identifiers (0 = not assigned yet).
 static NEXT_LOCK_ID: AtomicUsize = AtomicUsize::new(1);
 /// Observer of lock events.
-static OBSERVER: Mutex<Option<fn(LockEvent)>> = Mutex::new(None);
+static OBSERVER: StdMutex<Option<fn(LockEvent)>> = StdMutex::new(None);
 /// Tasks whose wake-up was deferred because the releasing task was unwinding.
-static DEFERRED: Mutex<Vec<shuttle::thread::Thread>> = Mutex::new(Vec::new());
+static DEFERRED: StdMutex<Vec<shuttle::thread::Thread>> = StdMutex::new(Vec::new());
 /// Counters, see [stats].
 static ST_READS: AtomicU64 = AtomicU64::new(0);
 static ST_WRITES: AtomicU64 = AtomicU64::new(0);
@@ -39,10 +44,17 @@ static ST_REENTRANT: AtomicU64 = AtomicU64::new(0);
 static ST_MAX_NEST: AtomicU64 = AtomicU64::new(0);
 static ST_READ_BLOCKED_BY_WAITING_WRITER: AtomicU64 = AtomicU64::new(0);
 static ST_DEFERRED: AtomicU64 = AtomicU64::new(0);
+static ST_MUTEX_LOCKS: AtomicU64 = AtomicU64::new(0);
+/// Lock operations in either mode (a measure of the work of a plan).
+static ST_OPS_ANY_MODE: AtomicU64 = AtomicU64::new(0);
 
 /// Kinds of lock events reported to the observer.
 #[derive(Debug, Clone, Copy, PartialEq, Eq)]
 pub enum LockEventKind {
+  MutexRequest,
+  MutexAcquired,
+  MutexBlocked,
+  MutexReleased,
   ReadRequest,
   ReadAcquired,
   ReadBlocked,
@@ -72,6 +84,8 @@ pub struct Stats {
   pub max_read_nesting: u64,
   pub read_blocked_by_waiting_writer: u64,
   pub deferred_wakeups: u64,
+  pub mutex_locks: u64,
+  pub ops_any_mode: u64,
 }
 
 /// Switches the simulated mode on or off (process wide).
@@ -99,6 +113,8 @@ pub fn stats() -> Stats {
     max_read_nesting: ST_MAX_NEST.load(Ordering::Relaxed),
     read_blocked_by_waiting_writer: ST_READ_BLOCKED_BY_WAITING_WRITER.load(Ordering::Relaxed),
     deferred_wakeups: ST_DEFERRED.load(Ordering::Relaxed),
+    mutex_locks: ST_MUTEX_LOCKS.load(Ordering::Relaxed),
+    ops_any_mode: ST_OPS_ANY_MODE.load(Ordering::Relaxed),
   }
 }
 
@@ -112,6 +128,8 @@ pub fn reset_stats() {
     &ST_MAX_NEST,
     &ST_READ_BLOCKED_BY_WAITING_WRITER,
     &ST_DEFERRED,
+    &ST_MUTEX_LOCKS,
+    &ST_OPS_ANY_MODE,
   ] {
     c.store(0, Ordering::Relaxed);
   }
@@ -161,16 +179,21 @@ struct State {
 /// A reader-writer lock with the API of `std::sync::RwLock`.
 pub struct RwLock<T: ?Sized> {
   id: AtomicUsize,
-  state: Mutex<State>,
+  state: StdMutex<State>,
   inner: std::sync::RwLock<T>,
 }
 
 impl<T> RwLock<T> {
   /// Creates a new unlocked instance.
-  pub fn new(value: T) -> Self {
+  pub const fn new(value: T) -> Self {
     Self {
       id: AtomicUsize::new(0),
-      state: Mutex::new(State::default()),
+      state: StdMutex::new(State {
+        readers: BTreeMap::new(),
+        writer: None,
+        waiting_writers: Vec::new(),
+        parked: Vec::new(),
+      }),
       inner: std::sync::RwLock::new(value),
     }
   }
@@ -183,6 +206,12 @@ impl<T> RwLock<T> {
 impl<T: Default> Default for RwLock<T> {
   fn default() -> Self {
     Self::new(T::default())
+  }
+}
+
+impl<T> From<T> for RwLock<T> {
+  fn from(value: T) -> Self {
+    Self::new(value)
   }
 }
 
@@ -216,6 +245,7 @@ impl<T: ?Sized> RwLock<T> {
 
   /// Locks for shared read access.
   pub fn read(&self) -> LockResult<RwLockReadGuard<'_, T>> {
+    ST_OPS_ANY_MODE.fetch_add(1, Ordering::Relaxed);
     if !sim_active() {
       return match self.inner.read() {
         Ok(guard) => Ok(RwLockReadGuard {
@@ -294,6 +324,7 @@ impl<T: ?Sized> RwLock<T> {
 
   /// Locks for exclusive write access.
   pub fn write(&self) -> LockResult<RwLockWriteGuard<'_, T>> {
+    ST_OPS_ANY_MODE.fetch_add(1, Ordering::Relaxed);
     if !sim_active() {
       return match self.inner.write() {
         Ok(guard) => Ok(RwLockWriteGuard {
@@ -593,6 +624,255 @@ impl<T: ?Sized + fmt::Debug> fmt::Debug for RwLockWriteGuard<'_, T> {
 }
 
 impl<T: ?Sized + fmt::Display> fmt::Display for RwLockWriteGuard<'_, T> {
+  fn fmt(&self, f: &mut fmt::Formatter<'_>) -> fmt::Result {
+    (**self).fmt(f)
+  }
+}
+
+// ------------------------------------------------------------------------------------------------
+// Mutex
+// ------------------------------------------------------------------------------------------------
+
+#[derive(Default)]
+struct MutexState {
+  owner: Option<usize>,
+  parked: Vec<shuttle::thread::Thread>,
+}
+
+/// A mutual exclusion lock with the API of `std::sync::Mutex`. Not re-entrant: a task locking a
+/// mutex it already holds blocks for ever, as with std.
+pub struct Mutex<T: ?Sized> {
+  id: AtomicUsize,
+  state: StdMutex<MutexState>,
+  inner: StdMutex<T>,
+}
+
+impl<T> Mutex<T> {
+  /// Creates a new unlocked instance.
+  pub const fn new(value: T) -> Self {
+    Self {
+      id: AtomicUsize::new(0),
+      state: StdMutex::new(MutexState {
+        owner: None,
+        parked: Vec::new(),
+      }),
+      inner: StdMutex::new(value),
+    }
+  }
+  /// Consumes the mutex returning the data.
+  pub fn into_inner(self) -> LockResult<T> {
+    self.inner.into_inner()
+  }
+}
+
+impl<T: Default> Default for Mutex<T> {
+  fn default() -> Self {
+    Self::new(T::default())
+  }
+}
+
+impl<T> From<T> for Mutex<T> {
+  fn from(value: T) -> Self {
+    Self::new(value)
+  }
+}
+
+impl<T: ?Sized + fmt::Debug> fmt::Debug for Mutex<T> {
+  fn fmt(&self, f: &mut fmt::Formatter<'_>) -> fmt::Result {
+    f.debug_struct("Mutex").field("inner", &&self.inner).finish()
+  }
+}
+
+impl<T: ?Sized> Mutex<T> {
+  fn id(&self) -> usize {
+    let id = self.id.load(Ordering::Relaxed);
+    if id != 0 {
+      return id;
+    }
+    let fresh = NEXT_LOCK_ID.fetch_add(1, Ordering::Relaxed);
+    match self.id.compare_exchange(0, fresh, Ordering::Relaxed, Ordering::Relaxed) {
+      Ok(_) => fresh,
+      Err(existing) => existing,
+    }
+  }
+
+  fn st(&self) -> std::sync::MutexGuard<'_, MutexState> {
+    self.state.lock().unwrap_or_else(PoisonError::into_inner)
+  }
+
+  /// Returns `true` when the mutex is poisoned.
+  pub fn is_poisoned(&self) -> bool {
+    self.inner.is_poisoned()
+  }
+
+  /// Returns a mutable reference to the data (no locking needed).
+  pub fn get_mut(&mut self) -> LockResult<&mut T> {
+    self.inner.get_mut()
+  }
+
+  fn wrap<'a>(&'a self, result: std::sync::TryLockResult<std::sync::MutexGuard<'a, T>>, task: usize) -> LockResult<MutexGuard<'a, T>> {
+    match result {
+      Ok(guard) => Ok(MutexGuard {
+        inner: Some(guard),
+        lock: self,
+        sim: true,
+        task,
+      }),
+      Err(TryLockError::Poisoned(poisoned)) => Err(PoisonError::new(MutexGuard {
+        inner: Some(poisoned.into_inner()),
+        lock: self,
+        sim: true,
+        task,
+      })),
+      Err(TryLockError::WouldBlock) => panic!("dmntk-verif-sync: inner mutex busy after logical admission (shim defect)"),
+    }
+  }
+
+  /// Acquires the mutex, blocking the current task until it is able to do so.
+  pub fn lock(&self) -> LockResult<MutexGuard<'_, T>> {
+    ST_OPS_ANY_MODE.fetch_add(1, Ordering::Relaxed);
+    if !sim_active() {
+      return match self.inner.lock() {
+        Ok(guard) => Ok(MutexGuard {
+          inner: Some(guard),
+          lock: self,
+          sim: false,
+          task: 0,
+        }),
+        Err(poisoned) => Err(PoisonError::new(MutexGuard {
+          inner: Some(poisoned.into_inner()),
+          lock: self,
+          sim: false,
+          task: 0,
+        })),
+      };
+    }
+    flush();
+    let id = self.id();
+    let task = me();
+    emit(LockEventKind::MutexRequest, id, task, false);
+    shuttle::thread::sleep(std::time::Duration::ZERO);
+    let mut blocked_once = false;
+    loop {
+      {
+        let mut st = self.st();
+        if st.owner.is_none() {
+          st.owner = Some(task);
+          break;
+        }
+        st.parked.push(shuttle::thread::current());
+      }
+      if !blocked_once {
+        blocked_once = true;
+        ST_BLOCKED.fetch_add(1, Ordering::Relaxed);
+        emit(LockEventKind::MutexBlocked, id, task, false);
+      }
+      shuttle::thread::park();
+    }
+    ST_MUTEX_LOCKS.fetch_add(1, Ordering::Relaxed);
+    emit(LockEventKind::MutexAcquired, id, task, false);
+    self.wrap(self.inner.try_lock(), task)
+  }
+
+  /// Attempts to acquire the mutex without blocking.
+  pub fn try_lock(&self) -> TryLockResult<MutexGuard<'_, T>> {
+    ST_OPS_ANY_MODE.fetch_add(1, Ordering::Relaxed);
+    if !sim_active() {
+      return match self.inner.try_lock() {
+        Ok(guard) => Ok(MutexGuard {
+          inner: Some(guard),
+          lock: self,
+          sim: false,
+          task: 0,
+        }),
+        Err(TryLockError::Poisoned(poisoned)) => Err(TryLockError::Poisoned(PoisonError::new(MutexGuard {
+          inner: Some(poisoned.into_inner()),
+          lock: self,
+          sim: false,
+          task: 0,
+        }))),
+        Err(TryLockError::WouldBlock) => Err(TryLockError::WouldBlock),
+      };
+    }
+    flush();
+    let id = self.id();
+    let task = me();
+    emit(LockEventKind::MutexRequest, id, task, false);
+    shuttle::thread::sleep(std::time::Duration::ZERO);
+    {
+      let mut st = self.st();
+      if st.owner.is_some() {
+        return Err(TryLockError::WouldBlock);
+      }
+      st.owner = Some(task);
+    }
+    ST_MUTEX_LOCKS.fetch_add(1, Ordering::Relaxed);
+    emit(LockEventKind::MutexAcquired, id, task, false);
+    match self.wrap(self.inner.try_lock(), task) {
+      Ok(g) => Ok(g),
+      Err(p) => Err(TryLockError::Poisoned(p)),
+    }
+  }
+
+  fn release(&self, task: usize) {
+    let parked: Vec<shuttle::thread::Thread> = {
+      let mut st = self.st();
+      st.owner = None;
+      std::mem::take(&mut st.parked)
+    };
+    let id = self.id();
+    if std::thread::panicking() {
+      if !parked.is_empty() {
+        ST_DEFERRED.fetch_add(parked.len() as u64, Ordering::Relaxed);
+        DEFERRED.lock().unwrap_or_else(PoisonError::into_inner).extend(parked);
+      }
+      emit(LockEventKind::MutexReleased, id, task, true);
+      return;
+    }
+    emit(LockEventKind::MutexReleased, id, task, false);
+    for thread in parked {
+      thread.unpark();
+    }
+  }
+}
+
+/// Guard of a locked [Mutex].
+pub struct MutexGuard<'a, T: ?Sized> {
+  inner: Option<std::sync::MutexGuard<'a, T>>,
+  lock: &'a Mutex<T>,
+  sim: bool,
+  task: usize,
+}
+
+impl<T: ?Sized> Deref for MutexGuard<'_, T> {
+  type Target = T;
+  fn deref(&self) -> &T {
+    self.inner.as_ref().expect("guard alive")
+  }
+}
+
+impl<T: ?Sized> DerefMut for MutexGuard<'_, T> {
+  fn deref_mut(&mut self) -> &mut T {
+    self.inner.as_mut().expect("guard alive")
+  }
+}
+
+impl<T: ?Sized> Drop for MutexGuard<'_, T> {
+  fn drop(&mut self) {
+    self.inner.take();
+    if self.sim {
+      self.lock.release(self.task);
+    }
+  }
+}
+
+impl<T: ?Sized + fmt::Debug> fmt::Debug for MutexGuard<'_, T> {
+  fn fmt(&self, f: &mut fmt::Formatter<'_>) -> fmt::Result {
+    (**self).fmt(f)
+  }
+}
+
+impl<T: ?Sized + fmt::Display> fmt::Display for MutexGuard<'_, T> {
   fn fmt(&self, f: &mut fmt::Formatter<'_>) -> fmt::Result {
     (**self).fmt(f)
   }
